@@ -77,7 +77,7 @@ PROPS = {
         'rule': "one evaluation = one pair comparison, one triple law instance or one rendered lookup/comparison; a cell = (pair of value kinds) for the laws, "
                 "(access path, probe key kind, scan/hash size class, present/absent) for lookups, (kinds, ok/err) for template comparisons",
         'exhaustive': 'all pairs and triples of the base pool; random pools and lookup maps are sampled',
-        'must_observe': ['base_pool_completed', 'lookups', 'triples', 'string_representation_pairs'],
+        'must_observe': ['base_pool_completed', 'lookups', 'triples', 'string_representation_pairs', 'non_key_needles'],
     },
     'C16': {
         'scale': {'quick': 4, 'thorough': 3},
@@ -220,10 +220,10 @@ PROPS = {
         'technique': 'three oracles on generated expression trees rendered by the real engine: parenthesisation metamorphism (documented precedence table vs full parentheses), reference-model evaluation (model written from the docs), and an evaluation-trace monitor through a registered probe function',
         'claim': 'Kind-directed random trees (depth 2-5) over all binary/unary/postfix forms, filters, tests, function calls, array/map literals and list comprehensions are printed (a) with the minimal parentheses the documented precedence/associativity table implies plus random redundant parentheses and inter-token whitespace/newlines, '
                  '(b) fully parenthesised, (c) inside set/if/kwarg positions; all spellings must agree with each other and with the reference value or error-ness; probe(id=..) calls embedded in sub-expressions must fire in the model\'s order (left to right, stop at the deciding operand of and/or, untaken ternary branches and filtered-out comprehension items never). '
-                 'A deterministic matrix covers the undefined rules: 16 kinds of missing/none subject x 24 uses.',
+                 'A deterministic matrix covers the undefined rules: 16 kinds of missing/none subject x 24 uses; another one the truthiness of ~75 values of every kind and numeric representation through not/if/elif/ternary/and/or/default(boolean)/comprehension conditions.',
         'note': 'the environment is fixed (7 variables of every kind incl. none, one unbound); excluded as undocumented: unary-parsed operands directly after `~`, more than two levels of `[`..`]`, maps as comprehension targets, ordering of two undefined values (accepted as equal); error wording is never compared',
         'rule': "one evaluation = one render of one spelling; a cell = (parent operator, child operator, side, value/error) over all parent-child pairs of the tree, plus (missing-subject, use, value/error) for the undefined matrix",
-        'must_observe': ['spelling_pairs_compared', 'traces_compared', 'probe_events', 'undefined_rule_cells'],
+        'must_observe': ['spelling_pairs_compared', 'traces_compared', 'probe_events', 'undefined_rule_cells', 'truthiness_cells'],
     },
     'C03': {
         'scale': {'quick': 2, 'thorough': 8},
